@@ -52,6 +52,8 @@ def policy(cond, tr):
     # LorentzVector.boost: tf.where(beta2 > eps, ...) - the velocity is not exactly zero
     if isinstance(cond, (sp.StrictGreaterThan, sp.GreaterThan)) and cond.rhs.is_number and abs(float(cond.rhs)) < 1e-9:
         return True
+    if isinstance(cond, (sp.StrictLessThan, sp.LessThan)) and cond.lhs.is_number and 0 < abs(float(cond.lhs)) < 1e-9:
+        return True
     return None
 
 
@@ -120,6 +122,7 @@ def M2(p):
 # --------------------------------------------------------------------------------------- E6-step / E6-recoil
 def step_identities(repo, chk):
     chk.rule("E6-step", "generate_momentum_i(m0, m1, m2), first step: new particle on the m2 shell, recoil on the m1 shell, three-momenta balance, energies add up to m0")
+    chk.rule("E6-flat", "necessary conditions of flatness: each two-body step draws cos(theta) = 2u - 1 and phi = 2 pi u' from its two uniform variates (isotropic in the parent rest frame); the proposal density of the system masses times the importance factor is constant, so that accepted masses are distributed like the product of get_p factors (the recursive phase-space mass spectrum)")
     chk.rule("E6-recoil", "generate_momentum_i, later steps: the earlier system (m1, 0, 0, 0) is boosted into the recoil four-vector; rest_vector is linear and mass preserving (so shells and four-momentum conservation propagate through the cascade)")
     fn = repo.fn(K + "PhaseSpaceGenerator.generate_momentum_i")
     m1, m2, t = sp.symbols("m1 m2 t", positive=True)
@@ -136,10 +139,14 @@ def step_identities(repo, chk):
             return (c + 1) / 2 if counter[0] % 2 == 1 else PHI / (2 * sp.pi)
         return NotImplemented
 
+    odd_phase = []
+
     def trig(kind):
         def f(tr, a):
             if a == PHI:
                 return cphi if kind == "cos" else sphi
+            if sp.sympify(a).has(PHI):
+                odd_phase.append(sp.sympify(a))
             return sp.cos(a) if kind == "cos" else sp.sin(a)
         return f
 
@@ -158,6 +165,11 @@ def step_identities(repo, chk):
     if not (isinstance(out, list) and len(out) == 2 and all(isinstance(p, np.ndarray) and p.shape == (4,) for p in out)):
         raise AnalysisError("generate_momentum_i(first step) no longer returns [particle, recoil] four-vectors")
     p, r = out
+    if odd_phase:
+        # the azimuth is not 2 pi u': report it and continue with the angle the code uses as the free azimuth
+        chk.oblige("E6-flat", "azimuth phi == 2 pi u'", False)
+        chk.violation("E6-flat", W, "azimuth", "the azimuth handed to cos/sin is %s with u' = PHI/(2 pi), not 2 pi u': phi does not cover the circle uniformly" % odd_phase[0], file=PS, line=fn.lineno)
+        raise AnalysisError("step identities not evaluated with a non-standard azimuth")
     oblige(repo, chk, "E6-step", "new particle on shell: E^2 - |p|^2 == m2^2", M2(p), m2 ** 2, W, "shell-new")
     oblige(repo, chk, "E6-step", "recoil on shell: E^2 - |p|^2 == m1^2", M2(r), m1 ** 2, W, "shell-recoil")
     for k, nm in ((1, "x"), (2, "y"), (3, "z")):
@@ -165,6 +177,12 @@ def step_identities(repo, chk):
     oblige(repo, chk, "E6-step", "energies add up to the parent mass: E_new + E_recoil == m0", p[0] + r[0], m0, W, "energy")
     oblige(repo, chk, "E6-step", "|p| is get_p(m0, m1, m2): |p|^2 == lambda(m0^2, m1^2, m2^2) / (4 m0^2)", p[1] ** 2 + p[2] ** 2 + p[3] ** 2,
            (m0 ** 2 - (m1 + m2) ** 2) * (m0 ** 2 - (m1 - m2) ** 2) / (4 * m0 ** 2), W, "momentum")
+    # isotropy: with the two uniform variates written as (c + 1)/2 and PHI/(2 pi) the direction is (sin th cos ph, sin th sin ph, cos th)
+    # with cos th = c, ph = PHI - i.e. cos(theta) = 2u - 1 is uniform on (-1, 1) and phi = 2 pi u' is uniform on (0, 2 pi)
+    qq = sp.sqrt((m0 ** 2 - (m1 + m2) ** 2) * (m0 ** 2 - (m1 - m2) ** 2)) / (2 * m0)
+    oblige(repo, chk, "E6-flat", "direction: p_z == |p| (2u - 1)", p[3], qq * c, W, "iso-z")
+    oblige(repo, chk, "E6-flat", "direction: p_x == |p| sin(theta) cos(2 pi u')", p[1], qq * sp.sqrt(1 - c ** 2) * cphi, W, "iso-x")
+    oblige(repo, chk, "E6-flat", "direction: p_y == |p| sin(theta) sin(2 pi u')", p[2], qq * sp.sqrt(1 - c ** 2) * sphi, W, "iso-y")
     # later step: earlier system at rest with mass m1
     out2 = call([np.array([m1, 0, 0, 0], dtype=object)])
     if not (isinstance(out2, list) and len(out2) == 2):
@@ -301,7 +319,7 @@ def count(repo, chk):
 # --------------------------------------------------------------------------------------- E6-mono / S-bound
 def bound(repo, chk, tier):
     chk.rule("E6-mono", "get_p(M, ma, mb)^2 is non-decreasing in M and non-increasing in ma for M >= ma + mb (certificate: after M = ma + mb + t the derivative is a quotient of polynomials with non-negative coefficients)")
-    chk.rule("S-bound", "default weight <= 1 (n = 3..%d): get_weight's factors are get_p(M_{i+1}, M_i, mu_i) with the daughter masses of set_decay's bound factors get_p(emmax_i, emmin_i, mu_i); emmin_i <= M_i and M_{i+1} <= emmax_i for every generated mass; the importance factor is <= 1; composition: each factor is bounded by monotonicity, all factors are non-negative" % (4 if tier == "quick" else 6))
+    chk.rule("S-bound", "default weight <= 1 (n = 3..%d): get_weight's factors are get_p(M_{i+1}, M_i, mu_i) with the daughter masses of set_decay's bound factors get_p(emmax_i, emmin_i, mu_i); emmin_i <= M_i and M_{i+1} <= emmax_i for every generated mass; the importance factor is <= 1; composition: each factor is bounded by monotonicity, all factors are non-negative" % (5 if tier == "quick" else 6))
     gp = repo.fn(K + "get_p")
     Mx, ma, mb, t = sp.symbols("M ma mb t", positive=True)
     tr = Translator(repo, where_policy=policy, max_depth=3)
@@ -322,7 +340,7 @@ def bound(repo, chk, tier):
             chk.violation("E6-mono", gp.key, nm, "monotonicity/symmetry certificate of get_p failed (%s): the analytic weight bound of set_decay is no upper bound" % nm, file=PS, line=gp.lineno)
 
     cls = repo.cls(K + "PhaseSpaceGenerator")
-    nmax = 4 if tier == "quick" else 6
+    nmax = 5 if tier == "quick" else 6
     for n in range(3, nmax + 1):
         mus = list(sp.symbols("mu0:%d" % n, positive=True))
         T = sp.Symbol("T", positive=True)
@@ -374,6 +392,16 @@ def bound(repo, chk, tier):
             bad.append("%d bound factors, %d weight factors, expected %d" % (len(bound_calls), len(weight_calls), n - 1))
         if not certificate(1 - imp, pos) or not certificate(imp, pos):
             bad.append("importance factor %s is not in [0, 1]" % imp)
+        # proposal density of (M_1..M_{n-2}) is 1 / prod dM_k/dr_k (the map r -> M is triangular); times the
+        # importance factor it must not depend on the generated masses
+        jac = sp.Integer(1)
+        for k_, (mk, uk) in enumerate(zip(ms, us)):
+            jac *= sp.diff(sp.sympify(mk), uk) * (1 + uk) ** 2
+        ratio = sp.simplify(imp / jac)
+        flat = not (ratio.free_symbols & set(us))
+        chk.oblige("E6-flat", "n=%d: importance factor / Jacobian of the mass proposal is independent of the uniform variates (= %s)" % (n, ratio if len(str(ratio)) < 120 else "..."), flat)
+        if not flat:
+            chk.violation("E6-flat", K + "PhaseSpaceGenerator.mass_importances", "n=%d" % n, "n=%d: importance factor x proposal density of the system masses still depends on the generated masses (%s): accepted events are not distributed like the phase-space mass spectrum" % (n, sorted(str(x) for x in ratio.free_symbols & set(us))), file=PS, line=cls.methods["mass_importances"].lineno)
         chk.oblige("S-bound", "n=%d: %d factors get_p(M_{i+1}, M_i, mu) bounded factor-wise by get_p(emmax, emmin, mu); importance factor in [0,1]" % (n, n - 1), not bad)
         if bad:
             chk.violation("S-bound", K + "PhaseSpaceGenerator.get_weight", "n=%d" % n, "the acceptance weight is not bounded by one for n=%d: %s" % (n, "; ".join(bad[:3])), file=PS, line=cls.methods["get_weight"].lineno)
@@ -387,27 +415,87 @@ def bound(repo, chk, tier):
 
 
 # --------------------------------------------------------------------------------------- T-chain
+class _Vec:
+    def __init__(self, part, frame):
+        self.part, self.frame = part, frame
+
+    def __repr__(self):
+        return "p(%s) in rest(%s)" % (self.part, self.frame)
+
+
+class _Neg:
+    def __init__(self, v):
+        self.v = v
+
+
 def chain(repo, chk):
-    chk.rule("T-chain", "ChainGenerator._restruct_pi: every sub-tree is boosted with the momentum of its own head (head, tree = loop_index(ret, idx); tree_boost(head[0], tree)); rest_vector(neg(p0), (m,0,0,0)) == p0 for an on-shell p0")
-    fn = repo.fn(K + "_restruct_pi")
-    ok = False
-    for lp in walk_local(fn.node):
-        if isinstance(lp, ast.For) and norm_text(lp.iter) == "idxs":
-            names = {}
-            for st in lp.body:
-                if isinstance(st, ast.Assign):
-                    names[norm_text(st.targets[0])] = st.value
-            src = None
-            for tname, v in names.items():
-                if tname.replace(" ", "") in ("head,tree", "(head,tree)"):
-                    src = norm_text(v)
-            tb = [n for n in ast.walk(lp) if isinstance(n, ast.Call) and norm_text(n.func) == "tree_boost"]
-            if src and tb:
-                a0, a1 = norm_text(tb[0].args[0]), norm_text(tb[0].args[1])
-                ok = a0 == "head[0]" and a1 == "tree" and (src == "all_tree" or "loop_index(ret, idx)" in src)
-    chk.oblige("T-chain", "_restruct_pi boosts each sub-tree with head[0] of the same (head, tree) pair", ok)
-    if not ok:
-        chk.violation("T-chain", fn.key, "head", "a sub-tree is not boosted with the momentum of its own head particle", file=PS, line=fn.lineno)
+    chk.rule("T-chain", "ChainGenerator (frame-typed interpretation on nested decay structures up to three levels): every four-vector is boosted by rest_vector(neg(p0), x) only with the momentum p0 of the particle in whose rest frame x is expressed, innermost level first; all returned vectors are in the top rest frame, in the layout of the declared structure; rest_vector(neg(p0), (m,0,0,0)) == p0 for an on-shell p0")
+    cls = repo.cls(K + "ChainGenerator")
+    pcls = repo.cls(K + "PhaseSpaceGenerator")
+    A, B, C, D, E, F, G, H, I, J = sp.symbols("A B C D E F G H I J", positive=True)
+    worlds = [
+        (A, [B, C, D]),
+        (A, [B, (D, [E, F])]),
+        (A, [(B, [G, H]), (D, [E, F]), C]),
+        (A, [B, C, (D, [(E, [G, H]), F])]),
+        (A, [(D, [F, (E, [G, (I, [H, J])])]), B]),
+    ]
+
+    def isinst(tr, args, kwargs, n):
+        names = [norm_text(e) for e in (n.args[1].elts if isinstance(n.args[1], ast.Tuple) else [n.args[1]])]
+        kinds = tuple({"tuple": tuple, "list": list}[x] for x in names if x in ("tuple", "list"))
+        return isinstance(args[0], kinds) if kinds else False
+
+    n_boosts = 0
+    for struct in worlds:
+        problems = []
+
+        def rest_vector(tr, args, kwargs, n):
+            a, x = args[:2]
+            if not isinstance(a, _Neg) or not isinstance(x, _Vec):
+                problems.append("rest_vector(%r, %r): not of the form rest_vector(neg(p0), x)" % (a, x))
+                return x
+            p0 = a.v
+            if x.frame != p0.part:
+                problems.append("%r is boosted with the momentum of %s" % (x, p0.part))
+            return _Vec(x.part, p0.frame)
+
+        hooks = {
+            K + "PhaseSpaceGenerator": lambda tr, args, kwargs, n: SelfObj(pcls, {"_m0": args[0], "_mi": list(args[1])}),
+            K + "PhaseSpaceGenerator.generate": lambda tr, args, kwargs, n: [_Vec(m, args[0].attrs["_m0"]) for m in args[0].attrs["_mi"]],
+            LV + "rest_vector": rest_vector, LV + "neg": lambda tr, args, kwargs, n: _Neg(args[0]),
+            "builtin.isinstance": isinst, "allow_attr_store": True,
+        }
+        tr = Translator(repo, hooks=hooks, max_depth=14)
+        so = SelfObj(cls, {})
+        try:
+            tr.call_fn(cls.methods["__init__"], [struct[0], struct[1]], self_obj=so)
+            out = tr.call_fn(cls.methods["generate"], [sp.Symbol("N", positive=True)], self_obj=so)
+        except Unmodelled as e:
+            raise AnalysisError("ChainGenerator not interpretable on %s: %s" % (struct, e))
+
+        def layout(mi):
+            return [layout(x[1]) if isinstance(x, (tuple, list)) else x for x in mi]
+
+        def got_layout(o):
+            return [got_layout(x) if isinstance(x, list) else (x.part if isinstance(x, _Vec) else x) for x in o]
+
+        def leaves(o):
+            for x in o:
+                if isinstance(x, list):
+                    yield from leaves(x)
+                else:
+                    yield x
+
+        if got_layout(out) != layout(struct[1]):
+            problems.append("returned layout %s differs from the declared structure %s" % (got_layout(out), layout(struct[1])))
+        for v in leaves(out):
+            if not isinstance(v, _Vec) or v.frame != struct[0]:
+                problems.append("%r is returned, not a momentum in the rest frame of %s" % (v, struct[0]))
+        n_boosts += 1
+        chk.oblige("T-chain", "structure %s: every boost uses the momentum of the particle whose rest frame the vector is in; result in rest(%s)" % (struct, struct[0]), not problems)
+        if problems:
+            chk.violation("T-chain", K + "_restruct_pi", "frames:%s" % (struct,), "on the decay structure %s: %s" % (struct, "; ".join(problems[:3])), file=PS, line=repo.fn(K + "_restruct_pi").lineno)
     # tree_boost's leaf: rest_vector(neg(p0), x)
     tbf = repo.fn_opt(K + "_restruct_pi.tree_boost")
     if tbf is None:
